@@ -100,14 +100,18 @@ impl From<WireTimestamp> for Time {
 impl Add<Duration> for Time {
     type Output = Time;
 
+    /// Adds a (possibly negative) duration to the time. The result saturates
+    /// at the bounds of the representable range (e.g. at the start of the
+    /// timescale when a correction larger than the time itself is subtracted)
+    /// instead of overflowing.
     fn add(self, rhs: Duration) -> Self::Output {
         if rhs.nanos().is_negative() {
             Time {
-                inner: self.nanos() - rhs.nanos().unsigned_abs(),
+                inner: self.nanos().saturating_sub(rhs.nanos().unsigned_abs()),
             }
         } else {
             Time {
-                inner: self.nanos() + rhs.nanos().unsigned_abs(),
+                inner: self.nanos().saturating_add(rhs.nanos().unsigned_abs()),
             }
         }
     }
